@@ -19,6 +19,24 @@ CLAIMED = {
                      "the explored fault points, not a proof over all inputs."),
 }
 
+CLAIMED.update({
+    "C13": dict(cat="exploration", ref="DESIGN.md 3 (C13), B.2",
+                technique="deterministic simulation of operation histories: seeded append/insert/delete/replace sequences on "
+                          "real SectionItems vs a plain list model, naming invariants after every step, complete sweep of all "
+                          "sequences <= 3 over a 4-name alphabet, file round trip through the simulated file system",
+                text="Invariants I1-I6 (distinct session names, name->item resolution by item/attribute/LASFile access, blank => "
+                     "UNKNOWN, :1..:n numbering after each insertion, always-unique names untouched, originals preserved and "
+                     "re-read with the same session names) are checked after every operation of seeded histories; small "
+                     "histories are enumerated completely. Sampling evidence beyond that."),
+    "C15": dict(cat="exploration", ref="DESIGN.md 3 (C15), B.2",
+                technique="deterministic simulation of operation histories with interleaved probes: every lookup view "
+                          "(in, [], getattr, get, del, int, slice, plain assignment) compared against the first-match list "
+                          "model after each step; complete sweep of small sections x probe-key set",
+                text="All accessors are compared with the statement's first-match list semantics on sections reached by "
+                     "seeded histories (case-normalised or not, bare or inside a LASFile or read from a generated file); "
+                     "small sections are enumerated completely with the whole probe set."),
+})
+
 NOT_APPLICABLE = {
     "C04": "read_header_line is a pure function of one already-delivered line (regex cascade): no stream position, "
            "history, fault or interleaving can influence it, so deterministic simulation adds nothing (DESIGN.md 4)",
